@@ -8,7 +8,13 @@
 //! ripgrep wraps around it is under test.
 
 use grep_regex::{RegexMatcher, RegexMatcherBuilder};
-use regex_automata::{meta, util::syntax, Input};
+use regex_automata::{
+    meta,
+    nfa::thompson::{self, pikevm::PikeVM},
+    util::syntax,
+    Input, Match,
+};
+use std::sync::Mutex;
 use regex_syntax::ast::{self, Ast};
 use serde_json::{json, Value};
 
@@ -264,10 +270,38 @@ pub fn oracle_case(patterns: &[String], f: &PatFlags) -> Option<bool> {
     }
 }
 
+/// The reference regex. The answers come from the PikeVM, the plain NFA
+/// simulation of regex-automata (no literal optimisations, no reverse
+/// searches, no DFAs): the same pattern compiled the same way, run by the
+/// simplest engine there is. The optimised `meta::Regex` - what ripgrep's
+/// matcher is built on - is kept only to recognise disagreements *inside*
+/// the regex library (see `engine_disagrees`).
+pub struct Engine {
+    vm: PikeVM,
+    cache: Mutex<regex_automata::nfa::thompson::pikevm::Cache>,
+    pub meta: meta::Regex,
+}
+
+impl Engine {
+    pub fn search(&self, input: &Input<'_>) -> Option<Match> {
+        let mut cache = self.cache.lock().unwrap();
+        self.vm.find(&mut cache, input.clone())
+    }
+
+    pub fn is_match(&self, haystack: &[u8]) -> bool {
+        let mut cache = self.cache.lock().unwrap();
+        self.vm.is_match(&mut cache, Input::new(haystack))
+    }
+}
+
 pub struct Oracle {
-    pub re: meta::Regex,
+    pub re: Engine,
     pub term: Term,
     pub pattern: String,
+    /// ripgrep's own final HIR (hook `verif_describe`) compiled twice by the
+    /// regex library: optimised engine configured as `ConfiguredHIR::to_regex`
+    /// does, and the NFA simulation. Only used by `engine_disagrees`.
+    pub rg_hir: Option<Engine>,
 }
 
 impl Oracle {
@@ -282,6 +316,16 @@ impl Oracle {
             .unicode(f.unicode)
             .dot_matches_new_line(f.multiline && f.dotall)
             .utf8(false);
+        let vm = PikeVM::builder()
+            .syntax(syn.clone())
+            .thompson(
+                thompson::Config::new()
+                    .utf8(false)
+                    .nfa_size_limit(Some(50 * (1 << 20))),
+            )
+            .build(&pattern)
+            .map_err(|e| e.to_string())?;
+        let cache = Mutex::new(vm.create_cache());
         let re = meta::Regex::builder()
             .syntax(syn)
             .configure(
@@ -292,7 +336,105 @@ impl Oracle {
             )
             .build(&pattern)
             .map_err(|e| e.to_string())?;
-        Ok(Oracle { re, term: f.term, pattern })
+        let rg_hir = matcher_builder(f)
+            .verif_describe(patterns)
+            .ok()
+            .and_then(|(hir, _)| {
+                let nfa = thompson::Compiler::new()
+                    .configure(thompson::Config::new().utf8(false))
+                    .build_from_hir(&hir)
+                    .ok()?;
+                let vm = PikeVM::new_from_nfa(nfa).ok()?;
+                let cache = Mutex::new(vm.create_cache());
+                let meta = meta::Regex::builder()
+                    .configure(
+                        meta::Config::new()
+                            .utf8_empty(false)
+                            .onepass_size_limit(Some(10 * (1 << 20)))
+                            .dfa_size_limit(Some(1 << 20))
+                            .dfa_state_limit(Some(1_000)),
+                    )
+                    .build_from_hir(&hir)
+                    .ok()?;
+                Some(Engine { vm, cache, meta })
+            });
+        Ok(Oracle {
+            re: Engine { vm, cache, meta: re },
+            term: f.term,
+            pattern,
+            rg_hir,
+        })
+    }
+
+    /// Do the optimised engine (meta::Regex) and the plain NFA simulation
+    /// give different successive matches somewhere in `haystack`, searched
+    /// as a whole and line by line? Then the *regex library* is inconsistent
+    /// with itself on this (pattern, input): the defect recorded as
+    /// `C01:regex-engine-optimised-search-differs-from-nfa-simulation`.
+    pub fn engine_disagrees(&self, haystack: &[u8]) -> bool {
+        let mut engines = vec![&self.re];
+        if let Some(e) = &self.rg_hir {
+            engines.push(e);
+        }
+        for e in engines {
+            if Self::iter_differs(e, haystack, 0, haystack.len()) {
+                return true;
+            }
+            for l in crate::model::split_lines(haystack, self.term) {
+                let c = &haystack[l.start..l.content_end];
+                if Self::iter_differs(e, c, 0, c.len()) {
+                    return true;
+                }
+                // the line seen inside the buffer, as the searcher's slow
+                // path (span = the line) and fast path (span = the rest of
+                // the buffer) present it
+                if Self::iter_differs(e, haystack, l.start, l.content_end) {
+                    return true;
+                }
+                // the fast path searches from the line start to the end of
+                // the buffer: a match the optimised engine reports there must
+                // be confirmed by the NFA simulation anchored at its start
+                // (matches the optimised engine misses are caught above)
+                let rest = Input::new(haystack).span(l.start..haystack.len());
+                let mm = e.meta.search(&rest);
+                if mm.map(|m| m.end())
+                    != e.meta.search_half(&rest).map(|m| m.offset())
+                    || mm.is_some() != e.meta.is_match(rest.clone())
+                {
+                    return true;
+                }
+                if let Some(m) = mm {
+                    if m.start() <= l.content_end {
+                        let anch = Input::new(haystack)
+                            .span(m.start()..haystack.len())
+                            .anchored(regex_automata::Anchored::Yes);
+                        if e.search(&anch).map(|x| x.range()) != Some(m.range()) {
+                            return true;
+                        }
+                    }
+                }
+            }
+        }
+        false
+    }
+
+    fn iter_differs(e: &Engine, h: &[u8], start: usize, end: usize) -> bool {
+        let mut at = start;
+        let mut steps = 0;
+        while at <= end && steps < 10_000 {
+            steps += 1;
+            let input = Input::new(h).span(at..end);
+            let a = e.search(&input);
+            let b = e.meta.search(&input);
+            match (a, b) {
+                (None, None) => return false,
+                (Some(x), Some(y)) if x.range() == y.range() => {
+                    at = if x.is_empty() { x.end() + 1 } else { x.end() };
+                }
+                _ => return true,
+            }
+        }
+        false
     }
 
     /// Does the pattern match somewhere in this line's content (terminator
